@@ -8,6 +8,7 @@ CRATE = "e_io"
 DRIVER = "drv_io"
 DRIVER_MODULE = "Driver.Io"
 PROPS = "RlibModel.Props.C08"
+PROPS_SRC = "RlibModel.Props.C08Src"     # second tie: `src_*` theorems about the definitions regenerated from the source text
 PROFILES = ["release"]
 SHRINK_SEP = ";"
 RULE = ("case = (BUF, input bytes, delivery schedule, script). Inputs from the token/separator grammar (all 12 integer types "
@@ -112,11 +113,52 @@ def extract(repo):
     return params, []
 
 
+# ---- second tie: reader.rs regenerated from the source text on every run (tools/rs2lean_reader.py) ---------------------------
+ASSUMPTIONS.append(
+    "second tie: new/refill/peek/skip_whitespace/read_line/is_eof, the String and char readers and the bodies of read_signed!/read_unsigned! "
+    "(all twelve integer instances) of the hand-written model are proved equal (theorems src_*_eq_model) to the definitions that "
+    "tools/rs2lean_reader.py regenerates from the text of rlib/io/src/reader.rs on every run (Generated/ReaderSrc.lean: the struct is the tuple "
+    "of its fields, usize = Nat with checked + and -, the byte source is an explicit oracle parameter answered from the model's event list, "
+    "while loops on fuel, the Interrupted-retry loop on the schedule length); hypotheses: the buffer length fits usize and, except for refill/peek, "
+    "end <= buffer length (nothing about begin, eof, the source or the fuel); trusted there: the translator, its reading of std in "
+    "Generated/IoPrelude.lean (Read::read contract of one call, slices, copy_within, u8/char/String as code points, debug_assert! off in the "
+    "release profile); NOT translated (differential tie only): read::<T>, read_lines, read_vec, read_tuple! (generic / closure / macro-repetition code)")
+MANIFEST["technique"] += " + source-to-Lean translation of rlib/io/src/reader.rs regenerated and proved equal to the model on every run"
+MANIFEST["text"] += (" Second tie: the functions of reader.rs (new, refill, peek, skip_whitespace, read_line, is_eof, String/char readers, the read_signed!/read_unsigned! "
+                     "bodies) are re-translated from the source text on every run and proved equal to the model for all buffer states, sources and fuels.")
+TRUSTED_EXTRA.append("tools/rs2lean_reader.py and lean/RlibModel/Generated/IoPrelude.lean (reading of std::io::Read::read, slices, copy_within, u8/char/String)")
+
+READER_FNS = ["new", "refill", "peek", "skip_whitespace", "read_line", "is_eof", "String::read", "char::read", "read_signed!", "read_unsigned!"]
+
+_extract_buf = extract
+
+
+def extract(repo):
+    """The buffer size (above), then the translation of <repo>/rlib/io/src/reader.rs into Generated/ReaderSrc.lean (written only when its
+    text changes).  A construct outside the translator's subset makes the second tie unavailable (problem with the SUBSET prefix); the
+    generated file then has no definitions, so the src_* theorems stop compiling as well (never a stale file left in place)."""
+    import sys
+    params, problems = _extract_buf(repo)
+    verif = os.path.dirname(os.path.dirname(os.path.abspath(__file__)))
+    tools = os.path.join(verif, "tools")
+    if tools not in sys.path:
+        sys.path.insert(0, tools)
+    import rs2lean_reader
+    rel = "rlib/io/src/reader.rs"
+    out = os.path.join(verif, "lean", "RlibModel", "Generated", "ReaderSrc.lean")
+    info, p2 = rs2lean_reader.run(os.path.join(repo, rel), out, "Rlib.ReaderSrc", rel, ID, "Reader", READER_FNS)
+    params.update({"translated_from": rel, "translated_functions": info.get("functions", []), "translated_loops": info.get("loops", []),
+                   "translated_instances": info.get("instances", {}),
+                   "not_translated": info.get("not_translated", []) + ["debug_assert!(…) (off in the release profile the harness builds)"],
+                   "generated_file": "lean/RlibModel/Generated/ReaderSrc.lean", "generated_file_rewritten": info.get("rewritten", False)})
+    return params, problems + p2
+
+
 def harness_args(params, profile):
     return ["--buf", str(params["reader_buf_size"]) if params.get("buf_source") == "source" else "auto"]
 
 
-def extra(ctx):
+def _extra_probe(ctx):
     """Record the buffer size seen from outside (length of the slice offered to the first `read`): it is the BUF used
     when the textual extraction found nothing, and a cross-check (a note, never a verdict) when it did."""
     import subprocess
@@ -136,6 +178,19 @@ def extra(ctx):
                                   "first read call; boundary-targeted inputs are aimed at the extracted value")
         break
     return []
+
+
+def extra(ctx):
+    """The buffer-size probe, then a plain-words verdict on the second tie when the src_* proofs did not build."""
+    out = list(_extra_probe(ctx))
+    import rs2lean
+    ok = bool(ctx["params"].get("translated_functions"))
+    if ctx["coverage"].get("second_tie", {}).get("status") != "broken":
+        # the build of Props/C08Src has just succeeded (or the tie is unavailable): tie_findings compares file times, and a generated file that
+        # was rewritten with identical text after a --repo run would look "newer than its .olean" although lake (hash-based) rightly did not rebuild
+        return out
+    return out + rs2lean.tie_findings(["RlibModel/Generated/ReaderSrc.lean", "RlibModel/Generated/IoPrelude.lean"], "RlibModel/Lemmas/ReaderSrc.lean", ok,
+                                      "rlib/io/src/reader.rs")
 
 
 def nontrivial(case, rec):
